@@ -498,6 +498,23 @@ class CEval(object):
         v = self.ex.coerce(self.ev(n.args[0]), TCell)
         return SV(TInt, ptypes.cell_ival(v.t))
 
+    def i_py_equal(self, n):
+        a = self.ex.coerce(self.ev(n.args[0]), TCell)
+        b = self.ex.coerce(self.ev(n.args[1]), TCell)
+        return SV(TBool, ptypes.cell_eq(a.t, b.t))
+
+    def i_float_ok(self, n):
+        from . import strings
+        strings._decl_parsers()
+        v = self.ev(n.args[0])
+        return SV(TBool, App('float_ok', (v.t,), BOOL))
+
+    def i_int_ok(self, n):
+        from . import strings
+        strings._decl_parsers()
+        v = self.ev(n.args[0])
+        return SV(TBool, App('int_ok', (v.t,), BOOL))
+
     def i_real(self, n):
         v = self.ev(n.args[0])
         return SV(TFloat, smt.ToReal(v.t))
